@@ -21,8 +21,12 @@ def add_months(ex, st, a, k):
     st = st.add(idx == y2 * 12 + (m2 - 1), 1 <= m2, m2 <= 12)
     d2 = z3.If(d <= T.dim(y2, m2), d, T.dim(y2, m2))
     ok = z3.And(1 <= y2, y2 <= 9999)
-    return ex.cases(st, [(ok, lambda s: [(s, V.DateTime(T.ymd_to_ord(y2, m2, d2), V.tsec(a)))]),
-                         (z3.Not(ok), lambda s: ex.exc(s, 'ValueError'))])
+    o2 = fresh('ord', T.I)
+
+    def mk(s):
+        s = s.add(o2 == T.ymd_to_ord(y2, m2, d2), *T.built_from_fields(o2, y2, m2, d2))
+        return [(s, V.DateTime(o2, V.tsec(a)))]
+    return ex.cases(st, [(ok, mk), (z3.Not(ok), lambda s: ex.exc(s, 'ValueError'))])
 
 
 def install(reg):
@@ -33,8 +37,13 @@ def install(reg):
         y, m, d, hh, mi, ss = [T.int_of(v) for v in vals[:6]]
         ints = z3.And([T.is_intlike(v) for v in vals[:6]])
         ok = z3.And(ints, T.valid_ymd(y, m, d), 0 <= hh, hh < 24, 0 <= mi, mi < 60, 0 <= ss, ss < 60)
+        o = fresh('ord', T.I)
+
+        def mk(s):
+            s = s.add(o == T.ymd_to_ord(y, m, d), *T.built_from_fields(o, y, m, d))
+            return [(s, V.DateTime(o, hh * 3600 + mi * 60 + ss))]
         return ex.cases(st, [
-            (ok, lambda s: [(s, V.DateTime(T.ymd_to_ord(y, m, d), hh * 3600 + mi * 60 + ss))]),
+            (ok, mk),
             (z3.And(ints, z3.Not(ok)), lambda s: ex.exc(s, 'ValueError')),
             (z3.Not(ints), lambda s: ex.exc(s, 'TypeError'))])
     reg.external('datetime.datetime', dt_ctor,
